@@ -166,6 +166,13 @@ def run(ctx):
     for cid, files, via in det_cases():
         cases.append(("det:" + cid, files, via, "det"))
     cases.append(("witness:parsefsdir-no-package", [{"name": "a.txt", "src": "x"}], "parsefsdir", "det"))
+    # every type-expression shape in every XGo type position, over mixed packages whose Go file declares the generic types
+    tfam = g9gen.typeexpr_family()
+    for cid, files in tfam:
+        cases.append(("det:" + cid, files, "", "det-typeexpr"))
+    for k in range(ctx.n(40, 300)):        # ... and some of them as bases of the mutants
+        cid, files = tfam[ctx.rng.below(len(tfam))]
+        bases.append(("typeexpr-base:%d:%s" % (k, cid), files))
     for cid, files in bases:
         cases.append((cid, files, "", "none"))
     nmut = ctx.n(4000, 40000)
@@ -247,7 +254,10 @@ def run(ctx):
               samples=[{"scenario": scen[9], "impl": out1.splitlines()[9]},
                        {"case": cases[len(det_cases()) + 3][0], "result": res.get(len(det_cases()) + 3)},
                        {"case": cases[-1][0], "mutation": cases[-1][3], "result": res.get(len(cases) - 1)}],
-              rule="K-diff: %d scenarios (%d fixed + seeded; panic or error injected at gogen.NewPackage / class loading / imports / "
+              rule="deterministic type-expression family: %d mixed packages (g.go declares Named, Str, Box[T], Pair[K,V], Triple[A,B,C], Iface; the XGo file uses "
+                   "each of 27 type shapes - named, pointer, qualified, generic instances with 1/2/3 arguments, nested and pointer instances, array, slice, "
+                   "map, chan, func, struct, ill-formed instances - in each of 22 positions: embedded (4 forms, .gox field block), field, param, result, "
+                   "var, conversion, composite literal, new, assertion, type switch, alias, defined type, element, func literal, method) | K-diff: %d scenarios (%d fixed + seeded; panic or error injected at gogen.NewPackage / class loading / imports / "
                    "declarations / statements, recovery on or off, Recorder on or off); fuzz: %d cases = %d deterministic + %d "
                    "unmutated bases (%d /repo corpus packages, generated XGo and Go programs) + %d seeded mutants (1-2 structured "
                    "mutations of one file; 1/6 of the single-file ones through x/build BuildFile); non-trivial = distinct input "
@@ -256,7 +266,7 @@ def run(ctx):
                    "(kind parser-panic) is outside C07 (not parser-accepted input; C13); a panic of gogen's WriteTo after NewPackage "
                    "returned err == nil (kind writeto-panic) is an invalid output and is accounted to C06; WriteTo is not called on "
                    "packages built from partial ASTs."
-                   % (len(scen), len(FIXED_SCENARIOS) + 1, len(cases), len(det_cases()) + 1, len(bases),
+                   % (len(tfam), len(scen), len(FIXED_SCENARIOS) + 1, len(cases), len(det_cases()) + 1 + len(tfam), len(bases),
                       sum(1 for b in bases if b[0].startswith("corpus:")), nmut),
               explanation="kernel theorem over the recover skeleton + K-gen audit of recover sites + K-diff with injected panics + mutation fuzz",
               scenario_result_histogram=sshape, fuzz_result_kind_histogram=kinds, mutation_kind_histogram=muts,
